@@ -68,7 +68,7 @@ class Script(EmbitBase):
     @classmethod
     def read_from(cls, stream):
         l = compact.read_from(stream)
-        data = stream.read(l)
+        data = compact.read_bytes(stream, l)
         if len(data) != l:
             raise ValueError("Cant read %d bytes" % l)
         return cls(data)
@@ -110,7 +110,7 @@ class Witness(EmbitBase):
         items = []
         for i in range(num):
             l = compact.read_from(stream)
-            data = stream.read(l)
+            data = compact.read_bytes(stream, l)
             if len(data) != l:
                 raise ValueError("Cant read %d bytes" % l)
             items.append(data)
